@@ -277,12 +277,29 @@ def scan_queries(kind='db', config='base', tier_all=None):
     return qs
 
 
+KVS_ENTRIES = ['kvs_full', 'kvs_from_a', 'kvs_from_b', 'kvs_from_c', 'kvs_range_a', 'kvs_range_b', 'kvs_range_c', 'kvs_range_d', 'kvs_range_e', 'kvs_range_f']
+
+
+def kvscan_queries():
+    """byte-string keys at tree level: all five scan forms over a list of 17 bounds on a four-level tree of 4-byte keys, symbolic halting position, bounds in static / heap memory"""
+    qs = []
+    for kind in ('db', 'olc', 'mutex'):
+        u = U('kvscan.cpp', 'base', defines=['DBKIND=%d' % DBKINDS[kind], 'UNODB_DETAIL_VERIF_FIXED_ITER_STACK=6'], max_node_type=2, **SCAN_STUBS)
+        for h in KVS_ENTRIES:
+            quick = kind == 'db' or h in ('kvs_full', 'kvs_from_a', 'kvs_range_b')
+            qs.append(Query('kvscan-%s-%s' % (kind, h), u, h, unwind=20, object_bits=12, flags=['--slice-formula'], tier='quick' if quick else 'thorough', timeout=800,
+                            about='%s<key_view>: %s on a four-level tree of six 4-byte keys; bounds from a list of 17 (stored keys, neighbours, bounds that leave the tree at every depth, smallest, largest), '
+                                  'both directions, all ordered pairs for scan_range, the two bounds of a call in static and heap memory (swapped every other call), symbolic halting position; visiting-order oracle' % (kind, h),
+                            bounds={'keys': 'concrete, 6 x 4 bytes', 'bounds': 'concrete list of 17', 'halt_at': 'symbolic 1..7', 'index': kind}))
+    return qs
+
+
 def c02():
     kc = U('keycmp.cpp')
     qs = [Query('compare', kc, 'h_compare', unwind=12, about='compare() on two buffers of symbolic length <= 4, all bytes', bounds={'len_max': 4}),
           Query('artkey-u64', kc, 'h_artkey_u64', unwind=12, about='art_key<uint64> cmp/operator[]/shift_right for all pairs of keys', bounds={'inputs': '2 x 64 bit'}),
           Query('artkey-keyview', kc, 'h_artkey_kv', unwind=12, about='art_key<key_view> cmp for byte strings of length 1..4 in two distinct buffers', bounds={'len_max': 4})]
-    qs += scan_queries('db', 'base') + node_queries('base')
+    qs += scan_queries('db', 'base') + node_queries('base') + kvscan_queries()
     # the OLC instantiation has its own seek/next/prior (olc_art.hpp try_seek ...): constant operation sequences with all five scan forms, bounds that
     # fall off nodes and diverge inside key prefixes at and below the root, symbolic halting position, full visiting-order oracle
     uo = U('olc_dbg.cpp', 'base', defines=['UNODB_DETAIL_VERIF_FIXED_ITER_STACK=6'], max_node_type=2,
@@ -298,7 +315,7 @@ def c02():
                  explanation='L1: comparison kernels for all inputs. L3: complete forward/reverse scans with a symbolic halting position on every catalogue shape (decided mostly by constant '
                              'propagation, the halt position by SAT); seek / scan_from / scan_range with fully symbolic 64-bit bounds on the shapes where the SAT instance fits '
                              '(root leaf in the quick tier; 3-leaf I4, the minimal fall-off-an-inner-node shape and others in the thorough tier). Outside: symbolic bounds on trees with more than '
-                             'two inode levels (instance > 40 GB), byte-string keys at tree level, the mutex instantiation (see C13); the OLC instantiation is covered by constant sequences (olcseq-*), not by symbolic bounds.')
+                             'two inode levels (instance > 40 GB), symbolic bounds for byte-string keys (tree level: concrete bound list, kvscan-*); the OLC instantiation is covered by constant sequences (olcseq-*), not by symbolic bounds.')
 
 
 OLC_DBG_SEQ = {
